@@ -37,6 +37,7 @@ Definition piece_origin_ok (got want : ty) (p : piece) : Prop :=
   | PStr OGot s => In s (attr_names got)
   | PStr _ _ => False
   | PNumber _ _ => False
+  | PRaw _ _ => False
   end.
 
 Lemma in_lit : forall s p, In p (lit s) -> p = PLit (bytes_of s).
@@ -95,7 +96,7 @@ Lemma origin_sub : forall g w g' w' p,
   (forall s, In s (attr_names g') -> In s (attr_names g)) ->
   (forall s, In s (attr_names w') -> In s (attr_names w)) ->
   piece_origin_ok g' w' p -> piece_origin_ok g w p.
-Proof. intros g w g' w' p Hg Hw H. destruct p as [|o s| |]; cbn in *; auto. destruct o; auto. Qed.
+Proof. intros g w g' w' p Hg Hw H. destruct p as [|o s| | |]; cbn in *; auto. destruct o; auto. Qed.
 
 Lemma attr_names_obj_name : forall fs n t, In (n, t) fs -> In n (attr_names (TObj fs)).
 Proof. intros fs n t H. cbn. apply in_flat_map. exists (n, t). split; auto. cbn. auto. Qed.
@@ -180,7 +181,7 @@ Proof.
            ++ eapply attr_names_obj_sub; eauto.
            ++ eapply attr_names_obj_sub; eauto.
       * apply missing_text_pieces in Hin; [|discriminate].
-        destruct p as [|o s| |]; try exact I; try contradiction.
+        destruct p as [|o s| | |]; try exact I; try contradiction.
         destruct o; try contradiction. cbn [piece_origin_ok]. apply Hmiss. exact Hin.
 Qed.
 
@@ -340,4 +341,315 @@ Proof.
   intros. unfold traverse_abs. destruct (lookup_var c root false) as [[v|] [|]].
   1,2: apply traverse_rel_ok; apply all_ok_nil.
   all: solve_ok.
+Qed.
+
+(* ---- the evaluator: every diagnostic of every evaluation satisfies diag_ok ---------------- *)
+Lemma all_ok_concat_map : forall {A} (g : A -> val * list diag) l,
+  (forall x, all_ok (snd (g x))) -> all_ok (concat (map snd (map g l))).
+Proof.
+  intros A g l H. apply all_ok_concat. rewrite map_map. apply Forall_map. apply Forall_forall. intros x _. apply H.
+Qed.
+
+(* a sum both of whose sides end in a list of diagnostics *)
+Definition sum_ok {A B} (x : (A * list diag) + (B * list diag)) : Prop :=
+  match x with inl p => all_ok (snd p) | inr p => all_ok (snd p) end.
+
+Section EvalOk.
+Variable idx : val -> val -> val * list diag.
+Hypothesis idx_ok : forall a b, all_ok (snd (idx a b)).
+
+(* destruct one sub-evaluation, remembering that its diagnostics are fine *)
+Ltac ev1 IH :=
+  match goal with
+  | |- context [eval_with idx ?f ?c ?a ?e] =>
+      let H := fresh "Hev" in
+      pose proof (IH c a e) as H;
+      destruct (eval_with idx f c a e) as [? ?];
+      cbn [snd fst] in H
+  end.
+
+Ltac okscrut x :=
+  lazymatch x with
+  | context [fold_left] => fail
+  | context [eval_with] => fail
+  | _ => idtac
+  end.
+
+Ltac bm_head :=
+  match goal with
+  | |- all_ok (snd (match ?x with _ => _ end)) => okscrut x; destruct x eqn:?
+  | |- sum_ok (match ?x with _ => _ end) => okscrut x; destruct x eqn:?
+  end.
+
+Ltac bm' :=
+  match goal with
+  | |- context [match ?x with _ => _ end] => okscrut x; destruct x eqn:?
+  end.
+
+Ltac hb :=
+  repeat match goal with
+  | H : (match ?x with _ => _ end) = _ |- _ => destruct x eqn:?; try discriminate H
+  | H : Some _ = Some _ |- _ => inversion H; subst; clear H
+  | H : inl _ = inl _ |- _ => inversion H; subst; clear H
+  | H : inr _ = inr _ |- _ => inversion H; subst; clear H
+  | H : (_, _) = (_, _) |- _ => inversion H; subst; clear H
+  end.
+
+Ltac map_gen IH :=
+  match goal with
+  | |- context [map ?g ?l] =>
+      lazymatch g with context [eval_with] => idtac end;
+      let H := fresh "Hmap" in
+      assert (H : all_ok (concat (map snd (map g l)))) by (apply all_ok_concat_map; intro; apply IH);
+      generalize dependent (map g l); intros
+  end.
+
+Ltac pairs := repeat match goal with x : (_ * _)%type |- _ => destruct x end.
+
+Ltac go IH :=
+  repeat first [ progress cbn [snd fst sum_ok] | ev1 IH | map_gen IH | sum_split IH | bm_head | fold_inv IH | bm' ];
+  conv_facts; solve_ok; hb; conv_facts; solve_ok
+with sum_split IH :=
+  match goal with
+  | |- context [match ?x with inl _ => _ | inr _ => _ end] =>
+      lazymatch x with
+      | context [fold_left] => fail
+      | context [match _ with _ => _ end] =>
+          let H := fresh "Hsum" in
+          assert (H : sum_ok x);
+          [ go IH | destruct x; pairs; cbn [sum_ok snd fst] in H ]
+      end
+  end
+with fold_inv IH :=
+  match goal with
+  | |- context [fold_left ?F ?l ?a] =>
+      let H := fresh "Hfold" in
+      first
+      [ assert (H : all_ok (snd (fold_left F l a)));
+        [ apply (fold_left_inv (fun st => all_ok (snd st)));
+          [ solve_ok
+          | let st := fresh "st" in let it := fresh "it" in let Hst := fresh "Hst" in
+            intros st it Hst; cbn beta; pairs; cbn [snd fst] in *; go IH ]
+        | destruct (fold_left F l a); pairs; cbn [snd fst] in H ]
+      | assert (H : sum_ok (fold_left F l a));
+        [ apply (fold_left_inv (fun st => sum_ok st));
+          [ cbn [sum_ok snd fst]; solve_ok
+          | let st := fresh "st" in let it := fresh "it" in let Hst := fresh "Hst" in
+            intros st it Hst; cbn beta; destruct st; pairs; cbn [sum_ok snd fst] in *; go IH ]
+        | destruct (fold_left F l a); pairs; cbn [sum_ok snd fst] in H ] ]
+  end.
+
+Lemma eval_with_ok : forall fuel c anon e, all_ok (snd (eval_with idx fuel c anon e)).
+Proof.
+  induction fuel as [|f IH]; intros c anon e; [cbn; solve_ok|].
+  destruct e; cbn [eval_with].
+  - (* ELit *) solve_ok.
+  - (* EScopeTrav *) apply traverse_abs_ok.
+  - (* ERelTrav *)
+    ev1 IH. pose proof (traverse_rel_ok steps v [] all_ok_nil) as Ht.
+    destruct (traverse_rel steps v []) as [r ds']. solve_ok.
+  - (* ECall *) go IH.
+  - (* ECond *) go IH.
+  - (* EIndex *)
+    ev1 IH. ev1 IH. pose proof (idx_ok v v0) as Hi. destruct (idx v v0) as [r ids]. solve_ok.
+  - (* ETuple *) cbn [snd]. apply all_ok_concat_map. intro; apply IH.
+  - (* EObj *) go IH.
+  - (* EObjKey *) go IH.
+  - (* EFor *) go IH. all: apply diag_ok_iter; apply can_iterate_false_scalar; apply negb_true_iff; assumption.
+  - (* ESplat *) go IH.
+  - (* EAnon *) solve_ok.
+  - (* EBin *) go IH.
+  - (* EUn *) go IH.
+  - (* ETmpl *) go IH.
+  - (* EJoin *) go IH.
+  - (* EWrap *) apply IH.
+  - (* EParen *) apply IH.
+Qed.
+End EvalOk.
+
+Theorem eval_diags_ok : forall fuel c anon e, all_ok (snd (eval fuel c anon e)).
+Proof. intros. apply eval_with_ok. apply index_ok. Qed.
+
+Lemma diag_ok_parts : forall d, diag_ok d = true ->
+  forallb frag_unmarked (d_frags d) = true /\
+  ((d_sum d =? S_InconsistentCond) ||
+   forallb (fun f => match f with FTy t => is_scalar t | _ => true end) (d_frags d)) = true /\
+  ((d_sum d =? S_InvalidFuncArg) || (d_sum d =? S_InconsistentCond) ||
+   forallb (fun f => match f with FConv e => mismatch_free e | _ => true end) (d_frags d)) = true /\
+  site_frags_ok d = true.
+Proof.
+  intros d H. unfold diag_ok in H. repeat (apply andb_true_iff in H; destruct H as [H ?]). auto.
+Qed.
+
+Lemma eval_diag_in : forall fuel c anon e v ds d,
+  eval fuel c anon e = (v, ds) -> In d ds -> diag_ok d = true.
+Proof.
+  intros fuel c anon e v ds d E Hin. pose proof (eval_diags_ok fuel c anon e) as H. rewrite E in H.
+  cbn [snd] in H. unfold all_ok in H. rewrite Forall_forall in H. auto.
+Qed.
+
+(* 1. no site formats a string taken from a value that carries marks *)
+Theorem frags_unmarked : forall fuel c anon e v ds,
+  eval fuel c anon e = (v, ds) ->
+  forall d s m, In d ds -> In (FStr s m) (d_frags d) -> m = [].
+Proof.
+  intros fuel c anon e v ds E d s m Hd Hf.
+  destruct (diag_ok_parts d (eval_diag_in _ _ _ _ _ _ _ E Hd)) as [H1 _].
+  rewrite forallb_forall in H1. specialize (H1 _ Hf). destruct m; [reflexivity|discriminate].
+Qed.
+
+(* 2. a formatted type is string/number/bool/dynamic, except in the conditional's
+      type-mismatch description *)
+Theorem fty_sites : forall fuel c anon e v ds,
+  eval fuel c anon e = (v, ds) ->
+  forall d t, In d ds -> In (FTy t) (d_frags d) ->
+  d_sum d = S_InconsistentCond \/ is_scalar t = true.
+Proof.
+  intros fuel c anon e v ds E d t Hd Hf.
+  destruct (diag_ok_parts d (eval_diag_in _ _ _ _ _ _ _ E Hd)) as [_ [H2 _]].
+  apply orb_true_iff in H2. destruct H2 as [H2|H2].
+  - left. apply Z.eqb_eq. exact H2.
+  - right. rewrite forallb_forall in H2. exact (H2 _ Hf).
+Qed.
+
+(* 3. a conversion error with a structural target (the only texts that can quote
+      attribute names) occurs only in "Invalid function argument" and "Inconsistent
+      conditional result types" *)
+Theorem fconv_sites : forall fuel c anon e v ds,
+  eval fuel c anon e = (v, ds) ->
+  forall d ce, In d ds -> In (FConv ce) (d_frags d) ->
+  d_sum d = S_InvalidFuncArg \/ d_sum d = S_InconsistentCond \/ mismatch_free ce = true.
+Proof.
+  intros fuel c anon e v ds E d ce Hd Hf.
+  destruct (diag_ok_parts d (eval_diag_in _ _ _ _ _ _ _ E Hd)) as [_ [_ [H3 _]]].
+  apply orb_true_iff in H3. destruct H3 as [H3|H3].
+  - apply orb_true_iff in H3. destruct H3 as [H3|H3]; [left|right; left]; apply Z.eqb_eq; exact H3.
+  - right; right. rewrite forallb_forall in H3. exact (H3 _ Hf).
+Qed.
+
+(* 4. every diagnostic of the model has the frag shape of an audited site *)
+Theorem sites_audited : forall fuel c anon e v ds,
+  eval fuel c anon e = (v, ds) -> forall d, In d ds -> site_frags_ok d = true.
+Proof.
+  intros fuel c anon e v ds E d Hd.
+  destruct (diag_ok_parts d (eval_diag_in _ _ _ _ _ _ _ E Hd)) as [_ [_ [_ H4]]]. exact H4.
+Qed.
+
+(* ================================================================================= *)
+(* III. what is NOT true: witnesses                                                  *)
+(* ================================================================================= *)
+(* One context for the three witnesses: l is a MARKED list holding the secret, s
+   is the marked secret itself; the secret occurs nowhere else, and in no
+   expression below. *)
+Definition nm (s : string) : list Z := bytes_of s.
+Definition fn_takesmap : fn :=
+  mkFn [mkParam (nm "m") (TMap TNum) false false false false] None
+       (fun _ => Some TBool) (fun _ _ => OOk (VBool true)).
+Definition leak_ctx : ctx :=
+  [mkFrame (Some [(nm "l", VMark [1] (VList TStr [VStr secret_name]));
+                  (nm "s", VMark [1] (VStr secret_name))])
+           (Some [(nm "takesmap", fn_takesmap)])].
+
+Lemma leak_ctx_secret : secret_of leak_ctx secret_name = true.
+Proof. vm_compute. reflexivity. Qed.
+
+Definition var (s : string) : expr := EScopeTrav (nm s) [].
+Definition one : expr := ELit (VNum (nz 1)).
+Definition two : expr := ELit (VNum (nz 2)).
+
+(* (a)  [for w in l : {for v in [w, w] : v => 1}]
+   The for expression binds w to the elements of the UNMARKED collection (the
+   collection's marks are re-applied to the result only), so inside the body the
+   secret is an unmarked string: the duplicate-key site quotes it, honestly tagged
+   "carried no marks". *)
+Definition leak_expr_dupkey : expr :=
+  EFor [] (nm "w") (var "l") None
+       (EFor [] (nm "v") (ETuple [var "w"; var "w"]) (Some (var "v")) one None false)
+       None false.
+
+Theorem fstr_content_leak_refuted :
+  secret_of leak_ctx secret_name = true /\
+  exists d, In d (snd (value leak_ctx leak_expr_dupkey)) /\
+            d_sum d = S_DuplicateKey /\ In (FStr secret_name []) (d_frags d).
+Proof.
+  split; [exact leak_ctx_secret|].
+  exists (derr S_DuplicateKey [FStr secret_name []]). vm_compute. auto.
+Qed.
+
+(* (b)  [for w in l : true ? {(w) = 1} : {b = [2]}]
+   inside the loop the object {(w) = 1} is unmarked, the guard "neither result
+   contains marks" passes, and the description names the attribute. *)
+Definition leak_expr_cond : expr :=
+  EFor [] (nm "w") (var "l") None
+       (ECond (ELit (VBool true))
+              (EObj [(EObjKey (EParen (var "w")) false, one)])
+              (EObj [(EObjKey (var "b") false, ETuple [two])]))
+       None false.
+
+Theorem fty_attr_leak_refuted :
+  exists d t f, In d (snd (value leak_ctx leak_expr_cond)) /\
+                d_sum d = S_InconsistentCond /\ d_frags d = [FTy t; FTy f] /\
+                In (PStr OGot secret_name) (describe t f).
+Proof.
+  exists (derr S_InconsistentCond [FTy (TObj [(secret_name, TNum)]); FTy (TObj [(nm "b", TTuple [TNum])])]),
+         (TObj [(secret_name, TNum)]), (TObj [(nm "b", TTuple [TNum])]).
+  vm_compute. auto 10.
+Qed.
+
+(* (c)  takesmap({(s) = [1]})   with takesmap(m : map of number)
+   the conversion error of the argument is MismatchMessage(object, map of number),
+   which quotes the attribute name of the GIVEN object: the content of s. *)
+Definition leak_expr_conv : expr :=
+  ECall (nm "takesmap") [EObj [(EObjKey (EParen (var "s")) false, ETuple [one])]] false.
+
+Theorem fconv_attr_leak_refuted :
+  exists d h w, In d (snd (value leak_ctx leak_expr_conv)) /\
+                d_sum d = S_InvalidFuncArg /\ In (FConv (CETypeMismatch h w)) (d_frags d) /\
+                In (PStr OGot secret_name) (mismatch_msg h w).
+Proof.
+  exists (derr S_InvalidFuncArg [FStr (nm "m") []; FConv (CETypeMismatch (TObj [(secret_name, TTuple [TNum])]) (TMap TNum))]),
+         (TObj [(secret_name, TTuple [TNum])]), (TMap TNum).
+  vm_compute. auto 10.
+Qed.
+
+(* the repaired sites behave: a marked key is not quoted, an unmarked one is *)
+Definition dup_expr : expr :=
+  EFor [] (nm "v") (ETuple [var "s"; var "s"]) (Some (var "v")) one None false.
+Example dup_marked_not_quoted :
+  map d_frags (snd (value leak_ctx dup_expr)) = [[]].
+Proof. vm_compute. reflexivity. Qed.
+Example dup_unmarked_quoted :
+  map d_frags (snd (value [mkFrame (Some [(nm "s", VStr (nm "pub"))]) None] dup_expr)) = [[FStr (nm "pub") []]].
+Proof. vm_compute. reflexivity. Qed.
+Example cond_marked_not_described :
+  map d_frags (snd (value leak_ctx
+     (ECond (ELit (VBool true)) (EObj [(EObjKey (EParen (var "s")) false, one)])
+            (EObj [(EObjKey (var "b") false, ETuple [two])])))) = [[]].
+Proof. vm_compute. reflexivity. Qed.
+
+(* the full statements fail *)
+Theorem diags_leak_free_str_refuted : ~ diags_leak_free_str.
+Proof.
+  intro H. destruct fstr_content_leak_refuted as [Hs [d [Hd [_ Hf]]]].
+  apply (H leak_ctx leak_expr_dupkey secret_name Hs (eq_refl _) d [] Hd Hf).
+Qed.
+Theorem diags_leak_free_ty_refuted : ~ diags_leak_free_ty.
+Proof.
+  intro H.
+  refine (H leak_ctx leak_expr_cond secret_name leak_ctx_secret (eq_refl _)
+            (derr S_InconsistentCond [FTy (TObj [(secret_name, TNum)]); FTy (TObj [(nm "b", TTuple [TNum])])])
+            (TObj [(secret_name, TNum)]) _ _ _).
+  - vm_compute. auto.
+  - cbn. auto.
+  - cbn. auto.
+Qed.
+Theorem diags_leak_free_conv_refuted : ~ diags_leak_free_conv.
+Proof.
+  intro H.
+  refine (H leak_ctx leak_expr_conv secret_name leak_ctx_secret (eq_refl _)
+            (derr S_InvalidFuncArg [FStr (nm "m") []; FConv (CETypeMismatch (TObj [(secret_name, TTuple [TNum])]) (TMap TNum))])
+            (TObj [(secret_name, TTuple [TNum])]) (TMap TNum) _ _ _).
+  - vm_compute. auto.
+  - cbn. auto.
+  - vm_compute. auto 10.
 Qed.
